@@ -111,4 +111,8 @@ class TracesParser:
     def _feed_single_event(self, event, state):
         for eventid in state.get(event.tid, {}):
             state[event.tid][eventid].append(event)
+        if event.func_qualifier == DgbFuncQual.DBG_FUNC_NONE.value and event.eventid in state.get(event.tid, {}):
+            # A middle record of a path / string that is split over several records: it is reported once, with the
+            # whole text, when the last record arrives.
+            return None
         return self.parse_event_list([event])
